@@ -34,6 +34,7 @@ REQUIRED_COVERS = ["when_received", "when_executed", "when_saved", "async_ack", 
 def cases(tier: str) -> List[Any]:
     out: List[Any] = []
     for ack in _cb.ACKS:
+        out.append({"n": 1, "ack": ack, "async_ack": "future"})
         for async_ack in (False, True):
             out.append({"n": 1, "ack": ack, "async_ack": async_ack})
             pair_out = ("return", "raise_exc") if tier == "quick" else ("return", "raise_exc", "no_result")
@@ -48,6 +49,8 @@ def check_ack(c: sym.Ctx, lab: Any, i: int, ack: str) -> None:
     done = [e for e in lab.ev if e[0] == "cb_done" and e[1] == i]
     c.check(bool(done) and done[0][2] is None, "callback_completes", msg=i, done=done)
     calls, effs = lab.count("ack_call", i), lab.count("ack", i)
+    if done and effs == 1:
+        c.check(lab.index("ack", i) < lab.ev.index(done[0]), "ack_awaited_before_processing_completes", msg=i, ack_type=ack)
     c.check(calls == 1 and effs == 1, "ack_exactly_once", msg=i, calls=calls, effects=effs, ack_type=ack)
     if effs < 1:
         return
